@@ -116,11 +116,10 @@ PROPS['C01'] = dict(
                   'an independent regular-expression transcription of the N-Triples/N-Quads EBNF in the harness (grammaticality oracle)'],
     assumptions=['labels returned by a custom blank-node labeller and language tags are written verbatim: the ASCII guarantee requires them to be ASCII (documented scope decision)'],
     explanation='writer and decoder models compared byte for byte / statement for statement with the Go code; oracle: real encoder -> real decoder -> isomorphism, byte<128 scan, EBNF recogniser',
-    level_text='Proof: C01_decode_encode (N-Triples and N-Quads, ASCII option on and off: the decoder model reads the text of the writer model back as exactly the quads written, for datasets of any size) and C01_ascii (every byte below 0x80 under the ASCII option) '
+    level_text='Proof: C01_decode_encode and C01_bytes_roundtrip (N-Triples and N-Quads, ASCII option on and off: the decoder model reads the text of the writer model, as runes and as UTF-8 bytes, back as exactly the quads written, for datasets of any size) and C01_ascii (every byte below 0x80 under the ASCII option) '
                'over the models of the writers and the streaming decoder; the models are compared with the Go code on every generated dataset, and the end-to-end oracle (encode, decode, isomorphism, grammar, byte scan) runs on the implementation itself. RDF/JSON is covered by correspondence and oracle only.',
     level_note='Six fix: commits repaired defects in this area (ASCII range, truncated subject, language subtags, empty tag, absolute-IRI check, graph-name offsets).',
-    partial=['the round trip theorem is over the runes the reader delivers; UTF-8 encoding / decoding of the text (lib/Utf8.v) is executable and compared with Go, its own round trip is not proved',
-             'RDF/JSON: no theorem (encoding/json and inspectjson are outside the models)'],
+    partial=['RDF/JSON: no theorem (encoding/json and inspectjson are outside the models)'],
 )
 
 _ZOO_RULE = ('every decoder (ntriples, nquads, turtle, trig, rdfxml, rdfjson, jsonld, htmlrdfa, htmlmicrodata, htmljsonld, htmldefaults) in turn on: a hand-written corpus of fragile productions, '
